@@ -168,5 +168,5 @@ inline QDebugStream qDebug() { return QDebugStream("debug"); }
 inline QDebugStream qInfo() { return QDebugStream("info"); }
 inline QDebugStream qWarning() { return QDebugStream("warn"); }
 inline QDebugStream qCritical() { return QDebugStream("error"); }
-// concrete library model: tr(s) = "tr(" + s + ")"
-struct QCoreApplication { static QString translate(const char *, const char *s) { return QString("tr(") + QString(s) + QString(")"); } };
+// concrete library model: translate(ctx, s) = "tr(" + ctx + ":" + s + ")"
+struct QCoreApplication { static QString translate(const char *c, const char *s) { return QString("tr(") + QString(c) + QString(":") + QString(s) + QString(")"); } };
